@@ -7,6 +7,7 @@
 #include "caselog.hh"
 #include "simcheck.hh"
 #include "simrun.hh"
+#include "celeritas/phys/PhysicsStepUtils.hh"
 
 namespace verif
 {
@@ -110,8 +111,61 @@ Verdict run_case(Choices& c, CaseLog& log)
             }
         };
     };
+    // Injected RNG outcome ("mfp/boundary tie"): on one generated step of the
+    // first primary the sampled number of mean free paths is replaced by the
+    // value that puts the discrete interaction EXACTLY on the next boundary
+    // (mfp = distance-to-boundary x macroscopic xs) and the physics limit is
+    // recomputed with the code's own calc_physics_step_limit, exactly as
+    // PreStepExecutor does after sampling.  This is a possible (measure-zero)
+    // history that no RNG seed will ever produce on demand.
+    struct Tie
+    {
+        bool enabled = false;
+        int at_step = 0;  // number of steps already taken
+        bool done = false;
+        bool linear = false;
+    };
+    auto tie = std::make_shared<Tie>();
+    auto tie_hook = [tie](CoreParams const& cp, CoreState<MemSpace::host>& st) {
+        if (!tie->enabled || tie->done)
+            return;
+        for (auto i : range(TrackSlotId{st.size()}))
+        {
+            CoreTrackView t(cp.host_ref(), st.ref(), i);
+            auto sim = t.make_sim_view();
+            if (sim.status() != TrackStatus::alive || sim.track_id().get() != 0
+                || sim.event_id().get() != 0
+                || int(sim.num_steps()) != tie->at_step)
+                continue;
+            auto particle = t.make_particle_view();
+            bool neutral = particle.charge() == zero_quantity();
+            if (!neutral && !tie->linear)
+                return;  // curved or MSC-converted steps cannot tie exactly
+            auto pstep = t.make_physics_step_view();
+            double xs = pstep.macro_xs();
+            auto geo = t.make_geo_view();
+            if (!(xs > 0) || geo.is_outside())
+                return;
+            Propagation pr = geo.find_next_step();
+            if (!pr.boundary || !(pr.distance > 0) || !std::isfinite(pr.distance))
+                return;
+            auto phys = t.make_physics_view();
+            double mfp = pr.distance * xs;
+            if (!(mfp > 0) || !std::isfinite(mfp))
+                return;
+            phys.interaction_mfp(mfp);
+            auto mat = t.make_material_view();
+            sim.reset_step_limit(
+                calc_physics_step_limit(mat, particle, phys, pstep));
+            tie->done = true;
+            return;
+        }
+    };
     std::vector<Hook> hooks = {
         {"verif-snap-start", StepActionOrder::user_start, snap_at(0)},
+        // (registered before the snapshot so that the recorded pre-step limit
+        // is the recomputed one)
+        {"verif-mfp-tie", StepActionOrder::user_pre, tie_hook},
         {"verif-snap-pre", StepActionOrder::user_pre, snap_at(1)},
         {"verif-snap-post", StepActionOrder::user_post, snap_at(2)},
     };
@@ -144,7 +198,16 @@ Verdict run_case(Choices& c, CaseLog& log)
     if (v != Verdict::pass)
         return v;
     snaps->call = &p.w->rec->call;
+    if (c.boolean(0.25))
+    {
+        tie->enabled = true;
+        tie->at_step = int(c.int_in(0, 3));
+        tie->linear = !has_field(p.spec.along) && !has_msc(p.spec.along);
+        log.mix(tie->at_step);
+    }
     v = run_all_events(p, log, 20000);
+    if (tie->done)
+        log.label("mfp-boundary-tie-injected");
     if (v != Verdict::pass)
         return v;
     World& w = *p.w;
